@@ -200,7 +200,7 @@ class Emission:
             self.info["cls"] = "emit:%s:%s:%s" % (c["direction"], c["kind"], "allow" if want else "deny")
             self.info["nontrivial"] = (not want) or boundary(payload) or c["dest"][0] == "0.0.0.0" or c["first_src"] != "prev"
             self.info["desc"] = (tuple(sorted(exit_flags)), c["kind"], len(payload), c["direction"], c["dest"][0],
-                                 c["first_src"], hops, tuple(map(tuple, c.get("followups", []))))
+                                 c["first_src"], hops, tuple(map(tuple, c.get("followups", []))), c.get("in_via", "v4"))
             exit_peer = [p for p in origin.overlay.candidates if p.public_key.key_to_bin() == exit_node.key.pub().key_to_bin()][0]
             if not exit_flags:
                 # a node without any flag ignores create requests: no circuit, nothing can be emitted
@@ -304,9 +304,26 @@ class Emission:
                 # socket may legitimately exist even when the opener itself was refused (enable precedes the policy)
                 return
             cells_before = len([f for f in w.net.log if f.origin is exit_node.raw_endpoint])
-            trs[0].inject(payload, ("7.7.7.7", 7777))
+            via = c.get("in_via", "v4")
+            outside = ("7.7.7.7", 7777)
+            if via == "v4":
+                trs[0].inject(payload, outside)
+            else:
+                # the datagram arrives on the exit's IPv6 outside socket: from an IPv6 host, or from an IPv4 host that a
+                # dual-stack socket reports in IPv4-mapped form
+                trs6 = [t for t in loop.transports if t.local_addr[0] == "::" and not t.closed]
+                if not trs6:
+                    return
+                outside = ("2001:db8::7", 7777) if via == "v6" else ("::ffff:7.7.7.7", 7777)
+                trs6[0].inject(payload, (*outside, 0, 0))
             await asyncio.sleep(0.3)
             cells_after = len([f for f in w.net.log if f.origin is exit_node.raw_endpoint])
+            if via == "v6mapped":
+                # what the exit does with allowed data from a mapped sender is its business; forbidden data stays out
+                if not want and (cells_after != cells_before or got_raw):
+                    self.fail("P2", "inbound:v6mapped:" + c["kind"], f"forbidden outside datagram {payload[:24].hex()} from an "
+                              f"IPv4-mapped sender on the IPv6 outside socket was tunnelled back under exit flags {sorted(fs)}")
+                return
             if not want:
                 if cells_after != cells_before or got_raw:
                     self.fail("P2", "inbound:" + c["kind"], f"forbidden outside datagram {payload[:24].hex()} was tunnelled "
@@ -315,7 +332,7 @@ class Emission:
                 # IPv8-shaped data is not handed to on_raw_data at the originator; the cell on the wire is what counts
                 if cells_after != cells_before + 1:
                     self.fail("P5", "inbound:" + c["kind"], "allowed outside datagram was not tunnelled back")
-                if not ref_ipv8(payload) and got_raw != [(("7.7.7.7", 7777), payload)]:
+                if not ref_ipv8(payload) and got_raw != [(outside, payload)]:
                     self.fail("P5", "inbound:" + c["kind"], f"allowed outside datagram arrived as {got_raw}")
         finally:
             await w.close()
@@ -359,6 +376,7 @@ def _strategy():
         "dest": st.sampled_from(DESTS + DESTS[:2]),
         "direction": st.sampled_from(["out", "out", "in"]),
         "first_src": st.sampled_from(["prev", "prev", "prev", "same_ip_other_port", "other_ip"]),
+        "in_via": st.sampled_from(["v4", "v4", "v6", "v6mapped"]),
         "followups": st.lists(st.tuples(st.sampled_from(KINDS), st.sampled_from([2, 12, 23, 64, 300]),
                                         st.integers(0, len(DESTS) - 1)).map(list), max_size=3),
         "seed": st.integers(0, 1000),
